@@ -43,6 +43,8 @@ def jobs(tier):
         class_side = [c for c in CLASSES if c in names] + [n for n in ["Int", "Type", "Terminal", "KeyError", "_", "Tuple"] if n in names]
     hdr = gen_header(class_side)
     us = ["--unwindset", "h_dispatch.0:%d,h_dispatch.1:%d" % (len(class_side) + 2, len(class_side) + 2)]
+    if tier == "thorough":
+        us += ["--object-bits", "14"]      # one string object per class name and lookup: more than 4096 addressed objects with every class on the class side
     link = [f for f in files if f != "src/Type.c"] + ["stubs/throw.c"]
     for t in names:
         J.append(Job("C08.dispatch.%s" % t, "C08", "K2", "Type/dispatch.c", "h_dispatch", FUNCS, link=link, defines=["TYPE_UNDER_TEST=%s" % t] + (["CV_REVERSE_PASS"] if tier == "thorough" else []), covers=False,
